@@ -53,6 +53,11 @@ func referenceValid(t triple) bool {
 	if !bytes.Equal(crypto.Keccak256([]byte(t.receipt)), t.hash) {
 		return false
 	}
+	// a recoverable signature is r || s || v, 65 bytes, with a recovery id v of 0 to 3 from which a public key is
+	// recovered; the range is stated here because the two implementations of Ecrecover (cgo, pure Go) differ on 4 to 7
+	if len(t.sig) != 65 || t.sig[64] > 3 {
+		return false
+	}
 	_, err := crypto.Ecrecover(t.hash, t.sig)
 	return err == nil
 }
@@ -85,7 +90,12 @@ func mkValid(rnd *rand.Rand, key string) triple {
 
 func corrupt(rnd *rand.Rand, v triple) triple {
 	t := triple{receipt: v.receipt, hash: append([]byte(nil), v.hash...), sig: append([]byte(nil), v.sig...)}
-	switch rnd.Intn(13) {
+	switch rnd.Intn(14) {
+	case 13:
+		// one bit of the recovery id: 0 / 1 become 4 / 5, which the compact signature format of Bitcoin reads as the
+		// same id with the compressed-key flag - not a recovery id of a recoverable signature
+		t.kind = "sig-recovery-id-flag-bit"
+		t.sig[64] |= 4
 	case 12:
 		// the other convention for the recovery id (27 / 28): not what the server's verification accepts
 		t.kind = "sig-recovery-id-plus-27"
